@@ -128,6 +128,15 @@ def _edge_constraints(body, block):
         if sw["k"] != "switch" or w == block or w in try_switches:
             continue
         dl = op_local(sw["discr"])
+        discr_op = sw["discr"]
+        if dl is None:
+            # `match (a, flag) { (.., true) => .. }`: the switch reads a component of the scrutinee tuple
+            dpl = op_place(sw["discr"])
+            if dpl is not None and len(dpl["p"]) == 1 and re.match(r"^\.\d+$", dpl["p"][0]):
+                tds = [d for d in M.real_defs(body, dpl["l"]) if not body.is_cleanup(d[0])]
+                if len(tds) == 1 and tds[0][1] != "term" and tds[0][2]["rv"]["k"] == "agg" and tds[0][2]["rv"].get("tuple") and int(dpl["p"][0][1:]) < len(tds[0][2]["rv"]["ops"]):
+                    discr_op = tds[0][2]["rv"]["ops"][int(dpl["p"][0][1:])]
+                    dl = op_local(discr_op)
         if dl is None:
             continue
         subj = None
@@ -140,7 +149,7 @@ def _edge_constraints(body, block):
             if len(dsl) == 1 and dsl[0][1] == "term" and fn_matches(dsl[0][2], r"::len$") and dsl[0][2]["args"]:
                 subj = "len of " + panics.operand_origin(body, dsl[0][2]["args"][0])      # `match x.len() { 0 => .., 1 => .., _ => .. }`
         if subj is None and body.local_ty(dl) == "bool":
-            o = panics.operand_origin(body, sw["discr"])
+            o = panics.operand_origin(body, discr_op)
             if o.startswith("field "):
                 subj = o          # a boolean field tested directly
             else:
